@@ -360,6 +360,13 @@ def _check_object_from_file(query, filepath, allow_custom, version, encoding):
     return result
 
 
+# What follows the type name in the name of a versioned object's directory
+_ID_DIR_TAIL_RE = re.compile(
+    r"--[0-9a-f]{8}-[0-9a-f]{4}-[0-9a-f]{4}-[0-9a-f]{4}-[0-9a-f]{12}\Z",
+    re.I,
+)
+
+
 def _is_versioned_type_dir(type_path, type_name):
     """
     Try to detect whether the given directory is for a versioned type of STIX
@@ -604,6 +611,19 @@ class FileSystemSink(DataSink):
                 # (nor one no file could be named after: failing on that
                 # while writing would leave part of a lot behind)
                 raise ValueError("Can't store an object with '{}' {!r}".format(name, value))
+
+        # (nor one the source would never find again: it looks for an id in
+        # the directory of the type the id names, and recognises the
+        # directory of a versioned object by its name, "<type>--<UUID>")
+        if not stix_obj["id"].startswith(stix_obj["type"] + "--") or (
+            "modified" in stix_obj
+            and not _ID_DIR_TAIL_RE.match(stix_obj["id"][len(stix_obj["type"]):])
+        ):
+            raise ValueError(
+                "Can't store an object of type {!r} with 'id' {!r}".format(
+                    stix_obj["type"], stix_obj["id"],
+                ),
+            )
 
         type_dir = os.path.join(self._stix_dir, stix_obj["type"])
 
